@@ -168,6 +168,41 @@ pub fn ctor(r: &mut Rep, ri: u16, pbase: u64) {
             unsafe { libc::munmap(addr as *mut libc::c_void, FSZ) };
         }
     }
+    // "currently loaded": the root is switched (read CR3, write CR3) and the constructor is called again, all in one function —
+    // the verdict follows the register, not an earlier reading of it
+    {
+        use x86_64::registers::control::Cr3;
+        use x86_64::structures::paging::PhysFrame;
+        use x86_64::PhysAddr;
+        let l4 = s.l4_addr();
+        fill_table_at(l4, ri as usize, l4_phys | 3);
+        let other = PhysFrame::<Size4KiB>::containing_address(PhysAddr::new(other_phys));
+        let own = PhysFrame::<Size4KiB>::containing_address(PhysAddr::new(l4_phys));
+        for first_own in [true, false] {
+            cpu().cr[3] = if first_own { l4_phys } else { other_phys };
+            cpu().clear_events();
+            let res = run_fault(|| {
+                let mut out = [0u8; 4];
+                for (k, o) in out.iter_mut().enumerate() {
+                    let table: &mut PageTable = unsafe { &mut *(l4 as *mut PageTable) };
+                    *o = match RecursivePageTable::new(table) { Ok(_) => 1, Err(InvalidPageTable::NotActive) => 2, Err(InvalidPageTable::NotRecursive) => 3 };
+                    let (cur, fl) = Cr3::read();
+                    // switch to the other root after every verdict
+                    let next = if cur == own { other } else { own };
+                    unsafe { Cr3::write(next, fl) };
+                    let _ = k;
+                }
+                out
+            });
+            r.ev(true);
+            r.transitions += 4;
+            let exp = if first_own { [1u8, 2, 1, 2] } else { [2u8, 1, 2, 1] };
+            if res != Ok(exp) {
+                r.viol("C20|RecursivePageTable::new|verdict-does-not-follow-the-root-register-across-a-switch", &format!("ctorswitch {} {:#x} first_own={}", ri, pbase, first_own), &format!("{:?} expected {:?} (1 = Ok, 2 = NotActive)", res, exp));
+            }
+        }
+        cpu().cr[3] = l4_phys;
+    }
     // the index it then uses: the first window address dereferenced for a page with p4 = 3 must be (R,R,R,3)
     let l4 = s.l4_addr();
     unsafe {
